@@ -206,6 +206,17 @@ theorem cAt_noValue (i : Nat) (D : List Cell) (hD : DenseRow i D) (j : Nat)
     rw [this]; rfl
   · rw [List.getElem?_eq_none (by omega)]; rfl
 
+theorem maxCol_le (m : Int) (cells : List Cell)
+    (h : ∀ c ∈ cells, ∃ col row, cellNameToCoordinates c.ref = .ok (col, row) ∧ col ≤ m) :
+    maxCol m cells = .ok m := by
+  induction cells with
+  | nil => rfl
+  | cons c cs ih =>
+    obtain ⟨col, row, hd, hle⟩ := h c (by simp)
+    have : ¬ col > m := by omega
+    simp only [maxCol, hd, this, if_false]
+    exact ih (fun c' hc' => h c' (by simp [hc']))
+
 /-- **the per-row crux**: `checkRow` re-densifies the compacted cells of a dense row to a dense row
 with the same content in every cell slot. -/
 theorem checkRowOne_filter (i : Nat) (D : List Cell) (hi : i < Facts.TotalRows) (hD : DenseRow i D) :
@@ -263,7 +274,16 @@ theorem checkRowOne_filter (i : Nat) (D : List Cell) (hi : i < Facts.TotalRows) 
       simp only [hlast, hlref, hd]
       by_cases hlt : ((D.filter hasValue).length : Int) < (P.length : Int) + 1
       · have htn : ((P.length : Int) + 1).toNat = P.length + 1 := by omega
-        simp only [hlt, if_true, htn, targets_eq i (P.length + 1) hi (by omega)]
+        have hmaxc2 : maxCol ((P.length : Int) + 1) (D.filter hasValue) = .ok ((P.length : Int) + 1) := by
+          apply maxCol_le
+          intro c hc
+          obtain ⟨hcD, hcv⟩ := List.mem_filter.mp hc
+          obtain ⟨k, hk, rfl⟩ := List.getElem_of_mem hcD
+          have hk2 := hvalued_lt k hk hcv
+          refine ⟨(k : Int) + 1, (i : Int) + 1, ?_, by omega⟩
+          rw [(hD.2 k hk).1]
+          exact (refOf_dec k i (by omega) hi).2
+        simp only [hlt, if_true, hmaxc2, Res.bind, htn, targets_eq i (P.length + 1) hi (by omega)]
         rw [placeCells_overlay i 0 D _ hi (by omega) (by intro k hk; simpa using (hD.2 k hk).1)
           (by intro k hk hv; simp only [blanks_length]; have := hvalued_lt k hk hv; omega)]
         have := overlay_blanks i [] D (P.length + 1) (by intro k hk; simpa using hD.2 k hk) hvalued_lt (by omega)
